@@ -9,6 +9,7 @@ ValueError) and must then change nothing.  Oracle: an ordered list of
 """
 import copy
 import gc
+import io
 
 from simkit.core import EventLog, Outcome, Violation, stream_rng, stable_hash
 
@@ -39,7 +40,7 @@ ASSUMPTIONS = [
 PROBES = ["remove_head_then_insert_before_tail", "reorder_the_only_element",
           "reorder_head_tail_adjacent", "delete_then_reinsert_in_other_case",
           "copy_then_diverge", "failing_op_keyerror", "failing_op_valueerror_self_reorder",
-          "failing_op_invalid_value", "gc_step", "reparsed_handle", "sort_custom_key",
+          "failing_op_invalid_value", "gc_step", "reparsed_handle", "paragraph_read_from_a_stream_of_several", "sort_custom_key",
           "clear_then_reuse", "step_without_observation", "sort_key_with_ties",
           "sort_key_consults_the_mapping", "quiet_observer"]
 
@@ -47,8 +48,10 @@ NAMES = [["Package", "package", "PACKAGE"], ["Version", "version", "VERSION"],
          ["Depends", "depends", "DePeNdS"], ["X-A", "x-a", "X-a"], ["Zeta", "zeta", "ZETA"],
          ["alpha", "Alpha", "ALPHA"]]
 VALUES = ["1", "foo", "1.0-1", "a, b (>= 1)", "", "x y", "multi\n line2", "\n only\n cont",
-          "ünï", "v#1", "long value with several words",
-          "big " + "0123456789abcdef" * 600]          # beyond one I/O buffer
+          "ünï", "v#1", "long value with several words", "100% %s {0} \\1",
+          "big " + "0123456789abcdef" * 600,          # beyond one I/O buffer
+          # characters str.splitlines() breaks at are ordinary characters of a value
+          "form\x0cfeed", "nel\x85x", "ls\u2028x y", "multi\n li\x1cne\u2029 2"]
 BADVALUES = ["ends\n", "blank\n\n line", "nospace\nline2"]
 SORTKEYS = {"len": lambda x: (len(x), x.lower()),
             "rev": lambda x: x.lower()[::-1],
@@ -70,7 +73,7 @@ def generate(seed, run, tier):
     rw = stream_rng(seed, ID, run, "world")
     rs = stream_rng(seed, ID, run, "swarm")
     rq = stream_rng(seed, ID, run, "sched")
-    start = rs.choice(["empty", "dict", "text", "lines"])
+    start = rs.choice(["empty", "dict", "text", "lines", "stream"])
     items = []
     if start != "empty":
         names = list(NAMES)
@@ -80,6 +83,15 @@ def generate(seed, run, tier):
         if start == "dict" and rw.random() < 0.3 and items:
             fam = [f for f in NAMES if items[0][0] in f][0]
             items.append([rw.choice(fam), rw.choice(VALUES)])    # case-variant duplicate
+    before = []
+    if start == "stream":
+        # the paragraph is one of several read from one stream (iter_paragraphs); the ones
+        # before it spell the same field names their own way
+        for _ in range(rw.randint(0, 2)):
+            names = list(NAMES)
+            rw.shuffle(names)
+            before.append([[rw.choice(fam), rw.choice(VALUES[:6])]
+                           for fam in names[:rw.randint(1, 6)]])
     w = {"set": rs.choice([2, 4, 8]), "del": rs.choice([1, 2, 4]), "get": rs.choice([0, 1]),
          "pop": rs.choice([0, 1]), "setdefault": rs.choice([0, 1]), "clear": rs.choice([0, 0, 1]),
          "order_first": rs.choice([0, 2, 4]), "order_last": rs.choice([0, 2, 4]),
@@ -109,8 +121,10 @@ def generate(seed, run, tier):
                                     "byvalue"])
         elif k == "update":
             st["items"] = [[_key(rq), rq.choice(VALUES)] for _ in range(rq.randint(1, 3))]
+        elif k == "reparse":
+            st["how"] = rq.choice(["str", "str", "bytes", "file", "lines"])
         steps.append(st)
-    return {"world": {"start": start, "items": items,
+    return {"world": {"start": start, "items": items, "before": before,
                       # a client that only ever uses the spelling it stored, and never asks
                       # for keys that are not there (what it looks at is part of the schedule)
                       "quiet_observer": rs.random() < 0.25}, "trace": steps}
@@ -150,7 +164,7 @@ class M(object):
 def valid_value(v):
     if v.endswith("\n"):
         return False
-    for line in v.splitlines()[1:]:
+    for line in v.split("\n")[1:]:
         if not line or not line[0].isspace():
             return False
     return True
@@ -246,9 +260,20 @@ def execute(case):
         m0 = M()
         for k, v in _seq_dict(items).items():
             m0.set(k, v)
+    elif start == "stream":
+        text = "\n".join([_initial_text([tuple(x) for x in b]) for b in w.get("before", [])] +
+                         [_initial_text(items)])
+        got = list(Deb822.iter_paragraphs(text, use_apt_pkg=False))
+        if len(got) != len(w.get("before", [])) + 1:
+            raise Violation("paragraph-count-differs", "iter_paragraphs",
+                            {"got": len(got), "want": len(w.get("before", [])) + 1})
+        d0 = got[-1]
+        m0 = M([[k.lower(), k, v] for k, v in _dedupe(items)])
+        out.probe("paragraph_read_from_a_stream_of_several")
+        del got
     else:
         text = _initial_text(items)
-        d0 = Deb822(text if start == "text" else text.splitlines())
+        d0 = Deb822(text if start == "text" else text.split("\n"))
         m0 = M([[k.lower(), k, v] for k, v in _dedupe(items)])
         out.probe("reparsed_handle")
     sut = [d0]
@@ -284,7 +309,11 @@ def execute(case):
                 if op == "copy":
                     new = sut[hi].copy()
                 else:
-                    new = Deb822(sut[hi].dump())
+                    how = st.get("how", "str")
+                    text = sut[hi].dump()
+                    new = Deb822(text if how == "str" else text.encode("utf-8") if how == "bytes"
+                                 else io.BytesIO(text.encode("utf-8")) if how == "file"
+                                 else text.split("\n"))
                     out.probe("reparsed_handle")
                 sut.append(new)
                 model.append(M(model[hi].rows))
@@ -452,6 +481,10 @@ def shrink_candidates(case):
     for i in range(len(w.get("items", []))):
         c = copy.deepcopy(case)
         del c["world"]["items"][i]
+        yield c
+    for i in range(len(w.get("before") or [])):
+        c = copy.deepcopy(case)
+        del c["world"]["before"][i]
         yield c
     if w.get("start") not in ("empty", "dict"):
         c = copy.deepcopy(case)
